@@ -149,7 +149,10 @@ Step ==
               /\ viol' = viol \cup
                     (IF e.all_seen /\ ~(\A i \in DOMAIN e.served : \A j \in DOMAIN e.proxy_epochs : e.served[i].epoch > e.proxy_epochs[j].epoch)
                      THEN {<<l, "C13.recovered_epoch_not_greater">>} ELSE {})
-              /\ UNCHANGED <<cur, synced, skipped, mode, inst, commits, expect, checking>>
+              \* the broker went back to an earlier snapshot: migrations committed in the lost part of the history
+              \* are pending again and will legitimately be committed a second time
+              /\ commits' = {}
+              /\ UNCHANGED <<cur, synced, skipped, mode, inst, expect, checking>>
          [] e.kind = "converged_check" ->
               /\ checking' = TRUE
               /\ viol' = viol \cup (IF e.still_migrating THEN {<<l, IF mode = "recover" THEN "C13.migration_stuck_after_recovery" ELSE "C07.migration_not_finished">>} ELSE {})
